@@ -41,6 +41,8 @@ func StdScope() rel.Scope {
 		goStdlib := rel.MergeTuples(SafeStdScopeTuple(), rel.NewTuple(
 			stdOsUnsafe(),
 			stdNet(),
+			// exec runs commands: it does not belong in the safe library.
+			stdDeprecated(),
 		))
 		arraiUnsafeStdlib := mustParseBundle(stdlibUnsafeArraiz())
 		stdlibVal, err := rel.NewCallExprCurry(*parser.NewScanner("stdlib"), arraiUnsafeStdlib, goStdlib).
@@ -177,7 +179,6 @@ func SafeStdScopeTuple() rel.Tuple {
 		stdBits(),
 		stdFmt(),
 		stdRuntime(),
-		stdDeprecated(),
 	)
 	arraiSafeStdlib := mustParseBundle(stdlibSafeArraiz())
 	stdlibVal, err := rel.NewCallExprCurry(*parser.NewScanner("stdlib"), arraiSafeStdlib, goStdlib).
